@@ -215,8 +215,15 @@ class World:
         orig_post, orig_buffer = r._post_async, r._buffer_message
 
         async def post_recorded(message):
-            log.append(("post", b.mid(message), r.state))
-            return await orig_post(message)
+            mid = b.mid(message)
+            log.append(("post", mid, r.state))
+            try:
+                res = await orig_post(message)
+            except BaseException as ex:
+                log.append(("postexc", mid, type(ex).__name__))
+                raise
+            log.append(("postret", mid, r.state))
+            return res
 
         def buffer_recorded(message):
             orig_buffer(message)
@@ -233,27 +240,36 @@ class World:
     def settle(self):
         self.loop.run_ready()
 
-    def ack(self, ok: bool):
+    def ack(self, ok: bool, settle: bool = True):
         mid, att, fut = self.inflight.pop(0)
-        self.log.append(("ack", mid, att, "ok" if ok else "lost"))
-        if ok:
+        self._complete(mid, att, fut, ok)
+        if settle:
+            self.loop.run_ready()
+
+    def _complete(self, mid, att, fut, ok):
+        """The message was on the wire; ok = it arrived and was acknowledged.  If the sending task was cancelled while it
+        waited (future cancelled), nobody in the runner learns the outcome: '<outcome>-abandoned'."""
+        if fut.cancelled():
+            self.log.append(("ack", mid, att, "ok-abandoned" if ok else "lost-abandoned"))
+        elif ok:
+            self.log.append(("ack", mid, att, "ok"))
             fut.set_result(None)
         else:
+            self.log.append(("ack", mid, att, "lost"))
             fut.set_exception(self._PNE("Connection closed"))
-        self.loop.run_ready()
 
-    def fire_timer(self):
-        return self.loop.fire_next_timer()
+    def fire_timer(self, settle: bool = True):
+        return self.loop.fire_next_timer(run=settle)
 
-    def set_link(self, up: bool):
+    def set_link(self, up: bool, settle: bool = True):
         self.link_up = up
         self.log.append(("link", "up" if up else "down"))
         if not up:
             pend, self.inflight = self.inflight, []
             for mid, att, fut in pend:
-                self.log.append(("ack", mid, att, "lost"))
-                fut.set_exception(self._PNE("Connection closed"))
-        self.loop.run_ready()
+                self._complete(mid, att, fut, False)
+        if settle:
+            self.loop.run_ready()
 
     def event(self, ev: str):
         self.log.append(("event", ev, self.runner.state))
